@@ -27,6 +27,9 @@ add("C06", "Coq theorems over every schedule of atomic read-modify-write steps: 
 add("C07", "Coq theorem: a lifetime in which every counted fake is installed before it is called reports the same (memory, exit, panics, lock) whatever the call-site counters held before; the pinned no-reset behaviour is refuted by a witness. Tied by multi-lifetime histories through the same fake! call sites in one process vs the extracted machine with persistent counters.",
     "Trusted: Coq kernel; one counter per call site models the macro's static. One evaluation of a site per lifetime.")
 
+add("C15", "Coq theorems over an A64 ISA fragment for ALL 64-bit fake addresses and all aligned func/trampoline pairs: movz/movk x3/br x9 builds exactly the fake in x9 and branches to it (only x9 written); movz x0/ret for the boolean; Linux entry: B lands exactly on the trampoline inside +-128 MiB and is refused outside (the pinned 0x1FFF_FFFF bound is refuted); macOS: B, or ADRP/ADD/BR x16 reaching exactly the trampoline for page differences within +-2^20 (only x16 written). Tied by running the unmodified arm64 sources (both cfg variants) on simulated memory vs the extracted model, executing the implementation's bytes with the extracted A64 semantics, and cross-checking the decoder with llvm-mc on every distinct word.",
+    "Trusted: Coq kernel; hand-written A64 fragment (validated against llvm-mc-14); sim shim and source preparation. AArch64 code cannot be executed here (partial: no hardware).")
+
 def main():
     props = [json.loads(l) for l in open(os.path.join(V, "properties.jsonl"))]
     checks = [C[p["id"]] for p in props if p["id"] in C]
